@@ -104,6 +104,11 @@ def explore(facts, max_depth=6, bursts=None):
                     if ev[1] in reg:
                         viol.append((cell, "child dropped while still registered"))
                         reg.discard(ev[1])
+            if method == "reregister" and st.variant == "Disabled":
+                # "Disabled: .. kept until the wrapper itself is registered anew": a re-registration (update(), a
+                # sibling's Reregister) must leave a child that asked to be disabled alone
+                if st2.variant != "Disabled" or any(ev[0] in ("child", "child-failed") for ev in events):
+                    viol.append((cell, "a re-registration re-enables a child that asked to be disabled (only the wrapper's own register() may do that): its callback runs again without enable()"))
             if method == "process_events":
                 pa = ret[1] if ret and ret[0] == "result" else None
                 if not pa or pa[0] != "pa" or pa[1] not in ("Continue", "Reregister"):
